@@ -3,6 +3,7 @@ package main
 import (
 	"go/constant"
 	"go/types"
+	"regexp"
 	"sort"
 	"strings"
 
@@ -73,12 +74,19 @@ func checkCLIFiles(p *Program, r *Result) {
 	// within lazyOpener.Write the creation happens only when nothing was opened yet
 	{
 		tb := p.TB(lazyW)
+		// the field that holds the path: the one newLazyOpener stores its parameter in
+		pathField := "name"
+		if ret, err := successReturn(newLazy); err == nil && len(ret.Results) > 0 {
+			if m := regexp.MustCompile(`(\w+): P1\b`).FindStringSubmatch(short(p.TB(newLazy).Term(ret.Results[0]).String())); m != nil {
+				pathField = m[1]
+			}
+		}
 		for _, c := range callsTo(lazyW, "os.Create") {
 			facts := tb.FactsAt(c.Block())
 			_, f1 := hasFactShort(facts, "Field(Recv.f) == nil")
 			_, f2 := hasFactShort(facts, "Field(Recv.err) == nil")
 			name := short(tb.Term(c.Common().Args[0]).String())
-			r.Check(f1 && f2 && name == "Field(Recv.name)", lazyW.String(), "create:once", r.pos(c), "os.Create(l.name) only while l.f == nil && l.err == nil", "the file is (re)created on a path where it may already be open (truncating earlier output) or under another name: "+name)
+			r.Check(f1 && f2 && name == "Field(Recv."+pathField+")", lazyW.String(), "create:once", r.pos(c), "os.Create(l.name) only while l.f == nil && l.err == nil", "the file is (re)created on a path where it may already be open (truncating earlier output) or under another name: "+name)
 		}
 	}
 	// lazyOpener values are built only by newLazyOpener; -o is wrapped by it in main
